@@ -23,6 +23,23 @@ def _field_switches(f, field):
     return sorted(set(res))
 
 
+def _limit_switches(f):
+    """switches that test output.reached_limit directly, or the bool returned by a local helper that reads reached_limit"""
+    sws = _field_switches(f, "reached_limit")
+    P = f.prog
+    for c in f.calls:
+        for k in P.callee_keys(f, c):
+            g = P.fns.get(k)
+            if g is None or not PR.field_reads(g, "reached_limit"):
+                continue
+            for sw in sorted(f.reach):
+                t = f.blocks[sw]["term"]
+                if t["k"] == "switch" and t["discr"].get("ty") == "bool":
+                    if any(o.kind == "call" and o.call is c for o in F.origins(f, t["discr"], depth=12)):
+                        sws.append(sw)
+    return sorted(set(sws))
+
+
 def run(R):
     P = R.prog
     R.rule("C07.exit", "from the reached_limit==true edge of every executor no input-consuming call is reachable (all input loops are left)")
@@ -34,7 +51,7 @@ def run(R):
     for name in (L.FILE_EXEC, L.FOLLOW_EXEC):
         f = R.need_fn(name)
         sn = "::".join(f.spath.split("::")[-2:])
-        sws = _field_switches(f, "reached_limit")
+        sws = _limit_switches(f)
         if not sws:
             R.violation("C07.exit", sn + "|untested", "%s does not test output.reached_limit" % f.path, [f.loc()])
             continue
@@ -50,7 +67,7 @@ def run(R):
             else:
                 R.ok("C07.exit", sn, "limit edge leaves every input loop", f.loc(sw))
         # the limit test must be reached on every iteration that executed a line (not only when a row was produced)
-        ex = [c for c in PR.calls_matching(f, L.ENGINE_EXEC) if PR.loop_of(f, c.bb)]
+        ex = [c for c in L.calls_reaching(f, L.ENGINE_EXEC) if PR.loop_of(f, c.bb)]
         for e in ex:
             lp = PR.loop_of(f, e.bb)
             g = PR.discr_guard(f, PR.calls_matching(f, r"Try>::branch$")[0], "Continue") if False else None
